@@ -441,7 +441,7 @@ func runUniverseCase(rng *rand.Rand, thorough bool, out *bufio.Writer, st *stats
 	for _, e := range u.H {
 		hs = append(hs, e.tok())
 	}
-	caseLine := fmt.Sprintf("U %d %s HL %s CF %d %d %d %d DU %s EV %d %s", len(u.H), strings.Join(hs, " "), intsTok(hlens),
+	caseLine := fmt.Sprintf("U %d %s HL %s CF %d %d %d %d 0 DU %s EV %d %s", len(u.H), strings.Join(hs, " "), intsTok(hlens),
 		b2i(mono), b2i(restoreC), trailing, 3, initDur, len(evs), strings.Join(evs, " "))
 	caseLine = strings.Join(strings.Fields(caseLine), " ")
 	implLine := fmt.Sprintf("%d %s", len(obs), strings.Join(obs, " "))
